@@ -500,7 +500,6 @@ func exitOnlyOnError(info *types.Info, fd *ast.FuncDecl) bool {
 	return ok
 }
 
-
 // failingTail: the call is an expression statement of a block whose next
 // return statement (in the same block) yields a non-nil error.
 func failingTail(fd *ast.FuncDecl, call *ast.CallExpr) bool {
